@@ -70,16 +70,34 @@ Definition cl_assign_name (nm : list N) (n : list N) (l : loc) (eo : option exp)
   || (clean_at st n l
       && clean_at (mkT (upd_frames (var_hit n l) (repoint n eo) (t_frames st)) (t_globals st) (t_occs st)) n l).
 
-Fixpoint cl_local_loop (vis : list (exp * tT * tC)) (ns : list (list N * loc)) (st : tstate) {struct vis} : bool :=
-  match vis with
-  | [] => true
-  | (e, f, c) :: vis' =>
-    c st &&
-    match ns with
-    | [] => true
-    | (n, nl) :: ns' => cl_local_loop vis' ns' (add_var (mkV n nl (ref_of_exp e) (refer_empty n e)) (f st))
-    end
-  end.
+(* local_loop: all look-ups happen while the expressions are visited (one beyond the names included), before any
+   name of the statement is added (since fixes/C07-multi-local-order.diff) *)
+Definition cl_local_loop (vis : list (exp * tT * tC)) (ns : list (list N * loc)) (st : tstate) : bool :=
+  cl_all (map (fun x => (snd (fst x), snd x)) (firstn (S (length ns)) vis)) st.
+
+Lemma local_adds_fold : forall es nls lc st,
+  local_adds es nls lc st = fold_left (fun s v => add_var v s) (local_vars es nls lc) st.
+Proof.
+  induction es as [|e r IH]; intros nls lc st; cbn [local_adds local_vars].
+  - generalize st. induction nls as [|p q IHq]; intros st0; [reflexivity|]. cbn [fold_left map]. apply IHq.
+  - destruct nls as [|[n nl] nls']; [reflexivity|]. cbn [fold_left]. apply IH.
+Qed.
+
+(* the shapes used under tb_shape: no more expressions than names *)
+Lemma local_loop_shape (f : exp -> tT) es nls lc st :
+  (length es <= length nls)%nat ->
+  local_loop (map (fun e => (e, f e)) es) nls lc st = local_adds es nls lc (apply_all (map f es) st).
+Proof.
+  intros Hl. unfold local_loop. rewrite firstn_all2 by (rewrite map_length; lia).
+  rewrite !map_map. cbn [fst snd]. rewrite map_id. reflexivity.
+Qed.
+Lemma cl_local_loop_shape (f : exp -> tT) (c : exp -> tC) es nls st :
+  (length es <= length nls)%nat ->
+  cl_local_loop (map (fun e => (e, f e, c e)) es) nls st = cl_all (map (fun e => (f e, c e)) es) st.
+Proof.
+  intros Hl. unfold cl_local_loop. rewrite firstn_all2 by (rewrite map_length; lia).
+  rewrite map_map. reflexivity.
+Qed.
 
 Inductive ctarget := CName (n : list N) (l : loc) | COther (f : tT) (c : tC).
 
